@@ -12,6 +12,8 @@ ToksBold  == ToksBasic \cup {Tok("ob", 3), Tok("cb", 4)}
 AllModes == {"unchecked", "skip", "wrap"}
 TagModes == {"skip", "wrap"}
 ToksWf    == {Tok("t", 1), Tok("oi", 3), Tok("ci", 4), Tok("op", 3), Tok("cp", 4)}
+ToksStyle == {Tok("t", 1), Tok("oi", 3), Tok("ci", 4)}                 \* style runs, two annotations (repair vs next span)
+ToksWfSc  == {Tok("t", 1), Tok("ob", 3), Tok("cb", 4), Tok("sc", 5)}      \* bold runs with self-closing elements (<br/>)
 ToksText  == {Tok("t", 1), Tok("t", 2), Tok("w", 1), Tok("w", 2), Tok("oi", 3), Tok("ci", 4)}
 
 (* stack of open tags after a prefix (only called on prefixes that nest properly) *)
